@@ -292,11 +292,17 @@ def condOk (D : Design) (u : Use) : Bool :=
 inductive Src where
   | one
   | inp (k : Nat)
+  /-- the body / call is written inside a control structure (If/Elif/Else, Switch, FSM state): the guard of
+  its alternative, as a Boolean expression over the inputs, is and-ed (Amaranth semantics, written out by the harness) -/
+  | not (a : Src)
+  | and (a b : Src)
 deriving Repr, Inhabited, DecidableEq
 
 def Src.eval (inp : Nat → Bool) : Src → Bool
   | .one => true
   | .inp k => inp k
+  | .not a => !(a.eval inp)
+  | .and a b => a.eval inp && b.eval inp
 
 structure Env where
   /-- the pre-merge design as extracted from the real objects -/
